@@ -70,3 +70,13 @@ def register(add, NOTE):
         "taper models are tied to the code by a segment-level correspondence incl. assertion outcomes. PARTIAL: the growth factor <= 2.1 and "
         "the [max(2.5r,min), max] window of tapers are measured on the real segments (taper1 asserts the window itself).",
         "Rocq proof (structural for all instances, metric over R) + vm_compute correspondence + geometric oracle", "DESIGN.md §6 C13")
+
+    add("C14",
+        "Theorem over the cache state machine (zint cleared by the frequency setter, zins frequency independent): after ANY sequence of "
+        "SetF/Compute/FarField/NearField the values compute() uses equal those of a fresh object at the current frequency; fields and "
+        "repeated computes change no cache; the attachment writer's output is independent of set iteration order (sorted permutations of "
+        "distinct keys are equal). The property itself is decided on the real code: random operation sequences on one object vs fresh "
+        "objects (1e-12), sweep steps of main() vs single runs (text), and byte comparison across fresh processes; per-step load "
+        "impedances are tied to the extracted formulas at two frequencies on one object.",
+        "Rocq invariant proof over a cache state machine + history / process oracles on the real code", "DESIGN.md §6 C14",
+        note=NOTE + " BLAS/thread non-determinism is runtime behaviour outside the model.")
